@@ -8,6 +8,8 @@ EXPLANATION = ('Producers (real source): every array handed to the compression q
                '(layout agreement spec_off), for all cube shapes and every valid (rate, blockshape). The reader returns the spec-defined '
                'volume (C02: read_volume under contract), the pipeline writes the compressed events in put order (C16), the header states '
                'the matching sizes (C03). Composition: read_volume(write(X)) = DEC(ENC(edgepad(X))) cell by cell.')
+# read-back fidelity needs the header words the reader decodes (C03 set) and the read paths that decode the data (C02 set)
+INCLUDES = ('C02', 'C03')
 ASSUMPTIONS = [
     'AX-ZFP-ENC: compress_numpy(A, rate, write_header=False) = concatenation over the cells of A in C order of ENC_r(cell), ub bytes each (probed)',
     'AX-NP-INDEX incl. np.pad(...,"edge"); Python for-loops over range iterate in order (rank of an event = mixed-radix number of its loop indices)',
